@@ -1,18 +1,23 @@
 #!/bin/bash
-# tools/seedrun.sh <patch.diff> <Cxx> [<Cyy> ...]   — run checks against a scratch copy of /repo with a seeded change applied.
+# tools/seedrun.sh <patch.diff> <Cxx> [<Cyy> ...]  — run checks against a scratch copy of /repo with a seeded change applied.
 # Uses a private copy of /verif and a private worktree of /repo, so neither /repo nor /verif is touched.
+# Prints one line per property: "RESULT <patch-dir> <Cxx>: CAUGHT n=<violations> [first classes]" or "MISSED".
 set -u
 PATCH=$(readlink -f "$1"); shift
 TIER=${VERIF_TIER:-quick}
+NAME=$(basename $(dirname $PATCH))
 W=$(mktemp -d /tmp/seedrun.XXXXXX)
 git -C /repo worktree add -q --detach "$W/repo" HEAD || exit 2
-if ! git -C "$W/repo" apply "$PATCH"; then echo "PATCH DOES NOT APPLY"; git -C /repo worktree remove --force "$W/repo"; rm -rf "$W"; exit 2; fi
+if ! git -C "$W/repo" apply "$PATCH"; then echo "RESULT $NAME: PATCH DOES NOT APPLY"; git -C /repo worktree remove --force "$W/repo"; rm -rf "$W"; exit 2; fi
 rsync -a --exclude .git --exclude replays /verif/ "$W/verif/"
 cd "$W/verif"
 for P in "$@"; do
-  echo "== $P ($TIER) with $(basename $(dirname $PATCH))"
-  VERIF_REPO="$W/repo" timeout 1800 ./check "$P" "$TIER" 2>&1 | grep -E "VIOLATION|KNOWN-FINDING|obligations=|broken tie" | cut -c1-400
-  for f in replays/*; do [ -f "$f" ] && { echo "-- replay $f"; head -c 600 "$f"; echo; }; done 2>/dev/null | head -40
+  OUT=$(VERIF_REPO="$W/repo" timeout 2400 ./check "$P" "$TIER" 2>&1)
+  V=$(echo "$OUT" | grep -c "^VIOLATION")
+  CLS=$(ls replays 2>/dev/null | sed -E "s/^$P-//; s/-[0-9a-f]{8}\.json$//" | sort -u | head -4 | tr '\n' ',')
+  NF=$(echo "$OUT" | grep "^VIOLATION" | grep -c "no-failing-input-found")
+  SUM=$(echo "$OUT" | tail -1 | cut -c1-160)
+  if [ "$V" -gt 0 ]; then echo "RESULT $NAME $P: CAUGHT violations=$V (without-input=$NF) classes=$CLS | $SUM"; else echo "RESULT $NAME $P: MISSED | $SUM"; fi
   rm -rf replays
 done
 cd /
